@@ -73,7 +73,7 @@ impl World {
                 conformant: a.plan.conformant,
             };
             let msg = r.resolve(op);
-            if op.k == OpKind::Sync && op.d == BARRIER_TAG {
+            if op.k == OpKind::Sync && a.barrier_pc == Some(a.pc - 1) {
                 if let Message::Sync(s) = &msg {
                     a.barrier = Some(s.serial);
                 }
@@ -114,7 +114,7 @@ impl World {
                 a.sent_shutdown = true;
                 a.lossy_end = true;
                 a.phase = Phase::Closing;
-                if op.d != BARRIER_TAG {
+                if self.actors[i].barrier_pc.is_none() {
                     self.fault("clean_shutdown");
                 }
             }
@@ -491,6 +491,7 @@ impl World {
                 for a in &mut self.actors {
                     if a.phase == Phase::Connected && !a.sent_shutdown {
                         a.script.truncate(a.pc);
+                        a.barrier_pc = Some(a.script.len());
                         a.script.push(Op::new(OpKind::Sync, 0, 0, 0, BARRIER_TAG));
                     }
                 }
@@ -870,6 +871,7 @@ pub fn run_wire(plan: &WirePlan, replay: Option<Vec<u32>>, tracing: bool) -> Run
             handshake_ok: None,
             sent: 0,
             mapped: false,
+            barrier_pc: None,
         })
         .collect::<Vec<_>>();
 
